@@ -97,6 +97,15 @@ def replay(case):
         for v in viol:
             print("  %s :: %s" % (v["site"], v["detail"][:400]))
         return bool(viol)
+    if case["op"].get("big"):
+        from . import bigops
+
+        ctx = bigops.Ctx()
+        {"repr": bigops.repr_family, "collapse-mapping": bigops.collapse_mapping_family}.get(case["op"]["big"] if isinstance(case["op"]["big"], str) else "", bigops.big_family)(ctx, case.get("tier", "quick"))
+        viol = [v for v in ctx.viol if v["op"] == case["op"]]
+        for v in viol:
+            print("  [%s] %s :: %s" % (v["property"], v["site"], v["detail"][:400]))
+        return bool(viol)
     if case["op"].get("op") == "from_array-scale":
         from .props import c15
 
